@@ -436,6 +436,16 @@ func process2StringInterp(obj string, mergeFrom *Document, mergeFromDocs []*Docu
 			}
 		}
 
+		if !strings.HasPrefix(m, "$") {
+			// A value taken from the document must be fit for output itself:
+			// an unset $required (or a stray directive) does not become text.
+			err = validate(v)
+			if err != nil {
+				err = fmt.Errorf("{%s}: %w", m, err)
+				return "{ERROR}"
+			}
+		}
+
 		return fmt.Sprintf("%v", v)
 	})
 
